@@ -2,6 +2,7 @@
 #define PHOTOSPLINE_FITSIO_H
 
 #include <string.h>
+#include <cmath>
 
 namespace photospline{
 	
@@ -362,7 +363,7 @@ bool splinetable<Alloc>::read_fits_core(fitsfile* fits, const std::string& fileP
 		std::ostringstream hduname;
 		hduname << "KNOTS" << i;
 		fits_movnam_hdu(fits, IMAGE_HDU, const_cast<char*>(hduname.str().c_str()), 0, &error);
-		long nknots_temp;
+		long nknots_temp = 0;
 		fits_get_img_size(fits, 1, &nknots_temp, &error);
 		
 		if (error != 0)
@@ -370,6 +371,12 @@ bool splinetable<Alloc>::read_fits_core(fitsfile* fits, const std::string& fileP
 		if(nknots_temp<=0)
 			throw std::runtime_error("Invalid number of knots ("+std::to_string(nknots_temp)+") in dimension "+std::to_string(i));
 		nknots[i]=nknots_temp;
+		//The number of coefficients must match the number of knots and the order,
+		//and there must be enough knots for at least one fully supported interval
+		if(nknots[i]<2*uint64_t(order[i])+2 || naxes[i]!=nknots[i]-order[i]-1)
+			throw std::runtime_error("Invalid spline table: inconsistent numbers of knots ("
+			                         +std::to_string(nknots[i])+") and coefficients ("+std::to_string(naxes[i])
+			                         +") for order "+std::to_string(order[i])+" in dimension "+std::to_string(i));
 		
 		//Allow spline evaluations to run off the ends of the
 		//knot field without segfaulting.
@@ -380,6 +387,10 @@ bool splinetable<Alloc>::read_fits_core(fitsfile* fits, const std::string& fileP
 		fits_read_pix(fits, TDOUBLE, &fpix, nknots[i], NULL, &knots[i][0], NULL, &error);
 		if (error != 0)
 			throw std::runtime_error("Error reading knot vector "+std::to_string(i)+" data");
+		for (uint64_t j = 0; j < nknots[i]; j++) {
+			if (!std::isfinite(knots[i][j]) || (j > 0 && knots[i][j] < knots[i][j-1]))
+				throw std::runtime_error("Invalid spline table: knots are not finite and non-decreasing in dimension "+std::to_string(i));
+		}
 	}
 	
 	//Read the axes extents, stored in a single extension HDU.
